@@ -19,6 +19,9 @@ import json
 import math
 import os
 
+for _v in ("OMP_NUM_THREADS", "OPENBLAS_NUM_THREADS", "MKL_NUM_THREADS"):
+    os.environ.setdefault(_v, "1")   # 2x2..8x8 matrices: threads only hurt on a shared machine
+
 import numpy as np
 
 from common import (Corr, Broken, coq_eval_many, parse_evals, cnat, cbool, clist, REPO, SRC, VERIF, COQ)
@@ -707,9 +710,9 @@ def correspond(ctx):
     cases = []
     for c in corpus_cases():
         cases.append((c, "corpus"))
-    for _ in range(ctx.n(170, 1500)):
+    for _ in range(ctx.n(400, 4000)):
         cases.append((gen_case(rng), "structured"))
-    for _ in range(ctx.n(40, 300)):
+    for _ in range(ctx.n(100, 800)):
         cases.append(gen_malformed(rng))
     if ctx.thorough:
         for c in exhaustive_small():
@@ -750,7 +753,7 @@ def correspond(ctx):
         corr.count(structure_key(case), nontrivial=bool(nontriv), sample=case)
     # the optimiser really receives these gradients
     nopt = 0
-    for k in range(ctx.n(6, 30)):
+    for k in range(ctx.n(10, 40)):
         case = gen_case(rng, maxblocks=3, max_nq=2, max_layers=2, max_free=6)
         if count_free(case) == 0:
             continue
